@@ -236,7 +236,9 @@ OpStep(e) ==
                      /\ e.pn = "" /\ e.r[1] = (IF okExp THEN 1 ELSE 0)
                      \* contents: last value wins; a failed `deserialize` leaves the target untouched
                      /\ (IF replaced THEN KV(N) = LastWins(seen) /\ Cardinality(N) = Cardinality(LastWins(seen))
-                                           /\ \A z \in N : z[5] = PlanFn(hd, 0)[z[1]].pos /\ z[6] = PlanFn(hd, 0)[z[1]].tag
+                                           \* `deserialize` builds a collection with the Default hasher (plan 0); `deserialize_in_place` keeps its own
+                                           /\ LET pl == IF e.op = "serde_de_in_place" THEN prex.pl ELSE 0
+                                              IN \A z \in N : z[5] = PlanFn(hd, pl)[z[1]].pos /\ z[6] = PlanFn(hd, pl)[z[1]].tag
                                            /\ (hd.tr = 1 => AllIds(N) \cap (AllIds(A) \cup AllIds(A2) \cup lk.ids) = {} /\ Cardinality(AllIds(N)) = IdCount(N))
                          ELSE N = A)
                      \* ledger: the replaced contents are dropped, nothing that is stored is dropped
